@@ -5,3 +5,10 @@ check('C08', 'proof',
       'character-class axioms), z3. match_float language clause is a bounded lemma (reported as discharged_modulo_bounded).',
       'contract-based deductive verification: sidecar contracts, VCs from the real AST by path-replay symbolic execution, z3/cvc5',
       '3/C08')
+check('C09', 'proof',
+      'Proved for all texts/tokens/configurations: TextLinesCursor.match implements the documented token rule (prefix match, case-folded iff '
+      'ignorecase, nameguard with @@namechars), next_token terminates and stops only where no whitespace/comment pattern has a non-empty match.',
+      'Regex matching is an uninterpreted function (re.match is external); "token is a name" is uninterpreted; config layering and the '
+      'layout metamorphosis are bounded runs.',
+      'contract-based deductive verification (pyvc: VCs from the real AST, z3) + bounded stand-in for the API-level statement',
+      '3/C09')
